@@ -1001,3 +1001,100 @@ func derivesFromBytesEqual(p *Prog, v ssa.Value, depth int) bool {
 	}
 	return false
 }
+
+// checkStrictDispatch (C02-R14): a recogniser whose scan loop begins by dispatching on the current byte
+// (a `switch b[i]` at the top of the loop body) must reject every byte it has no case for.  Without a
+// default the byte is skipped: it is swallowed by the sequence that is recognised around it ("ESC a [ <
+// 0;5;5 M" becomes one mouse report), and any "ESC x" keeps the recogniser "partial" until the timer
+// runs out.  Decided on the CFG: the edge taken when none of the byte comparisons matched must not lead
+// back to the loop header.
+func checkStrictDispatch(c *Ctx, p *Prog, rule string) {
+	n := 0
+	for _, pi := range inputParsers(p) {
+		fn := pi.fn
+		for h, body := range loopsOf(fn) {
+			// the loop body's entry: the successor of the header that is inside the loop
+			var entry *ssa.BasicBlock
+			for _, s := range h.Succs {
+				if body[s] && s != h {
+					entry = s
+				}
+			}
+			if entry == nil {
+				continue
+			}
+			byteTest := func(b *ssa.BasicBlock) (ssa.Value, bool) {
+				if len(b.Instrs) == 0 {
+					return nil, false
+				}
+				iff, ok := b.Instrs[len(b.Instrs)-1].(*ssa.If)
+				if !ok {
+					return nil, false
+				}
+				bo, ok := iff.Cond.(*ssa.BinOp)
+				if !ok || bo.Op != token.EQL {
+					return nil, false
+				}
+				if _, isK := constInt(bo.Y); !isK {
+					return nil, false
+				}
+				u, ok := bo.X.(*ssa.UnOp)
+				if !ok || u.Op != token.MUL {
+					return nil, false
+				}
+				if _, isIA := u.X.(*ssa.IndexAddr); !isIA {
+					return nil, false
+				}
+				return bo.X, true
+			}
+			cur, ok := byteTest(entry)
+			if !ok {
+				continue
+			}
+			n++
+			blk := entry
+			cases := 0
+			for {
+				v, isT := byteTest(blk)
+				if !isT || v != cur {
+					break
+				}
+				cases++
+				blk = blk.Succs[1]
+			}
+			// follow plain jumps
+			seen := map[*ssa.BasicBlock]bool{}
+			back := false
+			for !seen[blk] {
+				seen[blk] = true
+				if blk == h {
+					back = true
+					break
+				}
+				if len(blk.Instrs) > 0 {
+					if _, isJ := blk.Instrs[len(blk.Instrs)-1].(*ssa.Jump); isJ {
+						// a block that only advances the index and jumps on is the loop's latch
+						blk = blk.Succs[0]
+						continue
+					}
+					if _, isIf := blk.Instrs[len(blk.Instrs)-1].(*ssa.If); isIf && body[blk] && blk.Dominates(h) == false && len(blk.Succs) == 2 && (blk.Succs[0] == h || blk.Succs[1] == h) {
+						back = true
+					}
+				}
+				break
+			}
+			// rotated range loops test `i+1 < len` in the latch itself
+			if !back && body[blk] {
+				for _, s := range blk.Succs {
+					if s == entry || s == h {
+						back = true
+					}
+				}
+			}
+			c.Check(!back, rule, fn.Name()+":unknown-byte-rejects", p.pos(firstPos(entry)), fmt.Sprintf("switch on the current byte with %d comparisons; the no-match edge %s", cases, map[bool]string{true: "falls through to the next iteration: the byte is skipped", false: "leaves the loop"}[back]))
+		}
+	}
+	if n == 0 {
+		c.Undecided(rule, "byte-dispatching recogniser", "-", "no recogniser dispatching on the current byte found")
+	}
+}
